@@ -399,7 +399,7 @@ def bounded(ctx, env, real):
         values = {"epoch": [None, "0", "1", "", "x", "1:", "٠", "9" * 4301], "upstream_version": ["1", "1.0", "a-b", "a:b", "a:3-4", "", " ", "1\n", "é"],
                   "debian_revision": [None, "1", "", "a-b", "a:b", "~1", "1 "], "debian_version": [None, "2", "b:c"],
                   "full_version": ["2.0-1", "1:2", "x:1", "", "1-", "3\n"]}
-        rounds = 1500 if ctx.tier == "quick" else 12000
+        rounds = 6000 if ctx.tier == "quick" else 30000
         for rnd in range(rounds):
             s0 = rng.choice(valid_pool)
             if rnd % 3 == 0 and spec_valid("%s+h%d" % (s0, rnd)):
